@@ -285,7 +285,8 @@ func (c07) Run(c *Ctx, i int) CaseResult {
 		}
 	}
 	res.Key = fmt.Sprint(in.Spec.SDLs, in.Query, in.StoreSeed, in.Faults)
-	fc, err := RunFed(c, in, 8*time.Second)
+	rec := &TraceRec{}
+	fc, err := RunFed(c, in, 8*time.Second, gateway.WithLogger(TraceLogger{Rec: rec}))
 	if err != nil {
 		res.Fails = append(res.Fails, Failure{Channel: "harness", Classifier: "harness-error", What: err.Error(), Input: in})
 		return res
@@ -311,6 +312,11 @@ func (c07) Run(c *Ctx, i int) CaseResult {
 	case o.PlanErr:
 		res.Skipped = "plan-error"
 		return res
+	}
+	// L1: whatever the services answered, the observed execution is a run of the executor machine
+	for _, tf := range TraceFails(c, rec, o, in) {
+		tf.Classifier = class
+		res.Fails = append(res.Fails, tf)
 	}
 	_, injectedErrs, shapes := fc.Injected.Snapshot()
 	var msgs []string
